@@ -465,14 +465,19 @@ def model_search(items, table_rows, bins):
                           "hand_model_observations": hobs if hobs is not None else h[-800:],
                           "property_verdict_on_regenerated_model": msgs or "passes (the two models differ only on what the property leaves open)"})
     res["witnesses"] = len(witnesses)
-    # the regenerated model against the crate
+    # the regenerated model against the crate: first the cases where the two models differ (does the crate follow
+    # the regenerated model or the hand model there?), then a sample of the others
     vs = {}
+    badset = set(bad)
     for prof in PROFILES:
-        part = [it for it in items if it["prof"] == prof]
+        idxs = [i for i, it in enumerate(items) if it["prof"] == prof]
+        part = [items[i] for i in idxs if i in badset][:100] + [items[i] for i in idxs if i not in badset][:60]
         if not part or bins is None:
             continue
         outl, b2, e2 = F.correspond(bins[prof], part, GEN_HEADER, "check_gen_obs", "c15_genobs_" + prof, per_file=400)
-        vs[prof] = {"cases": len(part), "disagreements": len(b2), "errors": len(e2)}
+        vs[prof] = {"cases": len(part), "of_which_the_two_models_differ": len([i for i in idxs if i in badset][:100]),
+                    "disagreements": len(b2), "errors": len(e2),
+                    "first_disagreements": [{"harness_line": part[i]["line"][:300], "crate": outl[i][:300]} for i in b2[:2]]}
     res["regenerated_model_vs_crate"] = vs
     return res, witnesses
 
